@@ -84,6 +84,8 @@ def depth1():
                 for st in ("single", "double"):
                     out.append(("%s =~ %s" % (a, q(rx, st)), ("regex", c, rx), "regex"))
     out += oplike_depth1()
+    out += opprefix_depth1()
+    out += intlist_depth1()
     out += primed_depth1()
     for c, (vals, impl, lists, ranges, rvals) in NUM_VALUES.items():
         for a in R.NUM_KW[c]:
@@ -117,13 +119,13 @@ OPLIKE_PARTNERS = {   # canonical string keyword -> (partner literal, second par
 }
 
 
-def oplike_depth1():
+def oplike_depth1(words=None, partner_table=None):
     """every string keyword alias x every operator-like word: alone / == != (symbolic and word
     spelling) / reversed / quoted and bare / first, middle, last element of an implicit list"""
     out = []
-    for c, (p1, p2) in OPLIKE_PARTNERS.items():
+    for c, (p1, p2) in (partner_table or OPLIKE_PARTNERS).items():
         for a in R.STR_KW[c]:
-            for w in OPLIKE_WORDS:
+            for w in (words or OPLIKE_WORDS):
                 for st in QUOTES:
                     out.append(("%s %s" % (a, q(w, st)), ("cmp", c, "==", w), "oplike-impl"))
                 for op in ("==", "!="):
@@ -139,7 +141,7 @@ def oplike_depth1():
     return out
 
 
-def oplike_trees(seed):
+def oplike_trees(seed, words=None, partner_table=None):
     """operator-like literals next to real connectives: every tree  X conn P | P conn X | not X  with
     X in {kw W, kw W p, kw p W} (kw in name, resname) and P in {protein, name CZ / resname ARG}"""
     names = {}
@@ -148,10 +150,10 @@ def oplike_trees(seed):
             names[c] = als[seed % len(als)]
     out = []
     for c in ("name", "resname"):
-        p1 = OPLIKE_PARTNERS[c][0]
+        p1 = (partner_table or OPLIKE_PARTNERS)[c][0]
         partners = leaves([("protein", names["protein"]), ("%s=%s" % (c, p1), "%s %s" % (names[c], p1))])
         xs = []
-        for w in OPLIKE_WORDS:
+        for w in (words or OPLIKE_WORDS):
             xs += [("%s=%s" % (c, w), "%s %s" % (names[c], w)),
                    ("%s in %s,%s" % (c, w, p1), "%s %s %s" % (names[c], w, p1)),
                    ("%s in %s,%s" % (c, p1, w), "%s %s %s" % (names[c], p1, w))]
@@ -160,6 +162,69 @@ def oplike_trees(seed):
             out += [("not", sp, x) for x in xs]
         out += bins(xs, partners) + bins(partners, xs)
     return out
+
+
+# ------------------------------------------------------------------------------------------------
+# lower-case bare words that merely START with an operator spelling are ordinary literals
+# (the fixture has residues leu, gtp and atoms ne2 eq1 let gea orn and1 nota tox lta); the quoted
+# forms of the same words are in the same variant group, so bare vs quoted is also compared directly
+# ------------------------------------------------------------------------------------------------
+OPPREFIX_WORDS = ["leu", "gtp", "ne2", "eq1", "let", "gea", "orn", "and1", "nota", "tox", "lta"]
+OPPREFIX_PARTNERS = {"name": ("CZ", "let"), "resname": ("ARG", "gtp"), "segment_id": ("SC", "sx")}
+
+
+def opprefix_depth1():
+    return [(s, k, klass.replace("oplike", "opprefix")) for s, k, klass in oplike_depth1(OPPREFIX_WORDS, OPPREFIX_PARTNERS)]
+
+
+def opprefix_trees(seed):
+    return oplike_trees(seed, ["leu", "ne2", "eq1", "gea", "orn", "and1"], OPPREFIX_PARTNERS)
+
+
+# ------------------------------------------------------------------------------------------------
+# implicit lists of 4..6 integers WITH REPEATS: every multiset of that size over four values per
+# keyword, chosen so that for some of them  max - min + 1 == number of items  (2 2 2 6 6) and for
+# others not; written in non-decreasing order (5-item lists also in an interleaved order).  A list means "equals
+# one of these values" whatever the repeats; on the float-valued keyword mass no integer is a mass.
+# ------------------------------------------------------------------------------------------------
+INTLIST_VALUES = {"resid": (2, 3, 6, 7), "residue": (1, 2, 5, 6), "index": (10, 11, 14, 15), "mass": (12, 13, 15, 16)}
+INTLIST_ALIAS = {"resid": "resid", "residue": "resSeq", "index": "index", "mass": "mass"}
+INTLIST_EXTRA = ["mass 12 13 14 15", "mass 12 13 14 15 16", "mass 1 2 3 4", "mass 14 15 16 17 18 19",
+                 "index 10 11 12 13", "resid 2 3 4 5 6", "resSeq 1 2 3 4 5 6"]
+
+
+def _multisets(vals, n):
+    if n == 0:
+        return [()]
+    return [(v,) + rest for i, v in enumerate(vals) for rest in _multisets(vals[i:], n - 1)]
+
+
+def intlist_depth1():
+    out = []
+    for c, vals in INTLIST_VALUES.items():
+        for a in (INTLIST_ALIAS[c],):
+            for n in (4, 5, 6):
+                for ms in _multisets(vals, n):
+                    key = ("list", c, tuple(sorted(set(ms))))
+                    out.append(("%s %s" % (a, " ".join(map(str, ms))), key, "intlist"))
+                    mixed = ms[::2] + ms[1::2]
+                    if n == 5 and mixed != ms:
+                        out.append(("%s %s" % (a, " ".join(map(str, mixed))), key, "intlist"))
+    for s in INTLIST_EXTRA:
+        w = s.split()
+        out.append((s, ("list", R.ALIAS[w[0]], tuple(sorted(set(int(x) for x in w[1:])))), "intlist"))
+    return out
+
+
+def intlist_trees(seed):
+    xs = leaves([("resid in 2,6", "resid 2 2 2 6 6"), ("index in 11,14", "index 11 11 14 14"),
+                 ("resSeq in 1,5,6", "resSeq 1 1 5 5 6 6"), ("mass in 12,16", "mass 12 12 12 16 16"),
+                 ("resid in 3,7", "resi 3 7 7 3 7")])
+    partners = leaves([("protein", "protein"), ("name=CA", "name CA"), ("mass>13", "mass > 13")])
+    out = []
+    for sp in R.NOT_SP:
+        out += [("not", sp, x) for x in xs]
+    return out + bins(xs, partners) + bins(partners, xs)
 
 
 # ------------------------------------------------------------------------------------------------
